@@ -153,13 +153,13 @@ theorem xlsx_range_spec (cfg : Cfg) (s : Sheet) (lay : Layout) (hwf : s.WF) (hok
     have hlast := lex_last hne_p hne
     have hhead := lex_head hne_p hne
     -- the documented precondition of `from_sparse` holds
-    have hpre : Range.sparsePre ne := by
+    have hpre : Range.sparsePreSorted ne := by
       cases hcase : ne with
       | nil => exact absurd hcase hne
       | cons c0 rest =>
         have hl : (c0 :: rest).getLast?.getD c0 = (c0 :: rest).getLast (by simp) := by
           rw [List.getLast?_eq_some_getLast (by simp)]; rfl
-        simp only [Range.sparsePre, hl]
+        simp only [Range.sparsePreSorted, hl]
         have hlast' : ∀ c ∈ c0 :: rest, c.1 ≤ ((c0 :: rest).getLast (by simp)).1 := by
           intro c hc; have := hlast c (by rw [hcase]; exact hc); simpa [hcase] using this
         have hhead' : ∀ c ∈ c0 :: rest, c0.1 ≤ c.1 := by
@@ -174,8 +174,8 @@ theorem xlsx_range_spec (cfg : Cfg) (s : Sheet) (lay : Layout) (hwf : s.WF) (hok
         · have := hb c hc; simp only [Range.U32]; omega
         · have := hb _ hlastmem; simp only [Range.U32]; omega
         · have := hb c hc; have := hb c' hc'; simp only [Range.U32]; omega
-    obtain ⟨rg, hrg⟩ := Range.fromSparse_of_pre ne hpre
-    obtain ⟨hlen, hsr, her, hbox, hec, hsc, _⟩ := Range.fromSparse_spec ne hne rg hrg
+    obtain ⟨rg, hrg⟩ := Range.fromSparse_of_pre ne (Range.sparsePre_of_old ne hpre)
+    obtain ⟨hlen, hsr, her, hbox, hec, hsc, _⟩ := Range.fromSparse_spec ne hne rg hrg (Range.rowsBetween_of_old ne hne hpre)
     have hcolU : ∀ c ∈ ne, c.2.1 < Range.U32 := by
       intro c hc; have := hall_b c (hsub c hc).1; simp only [Range.U32]; omega
     have her' : ∀ c ∈ ne, c.1 ≤ rg.er := by intro c hc; rw [her]; exact hlast c hc
@@ -202,7 +202,7 @@ theorem xlsx_range_spec (cfg : Cfg) (s : Sheet) (lay : Layout) (hwf : s.WF) (hok
         obtain ⟨l1, l2, hsplit⟩ := List.append_of_mem hcne
         obtain ⟨_, hu2⟩ := lex_unique hne_p l1 l2 c hsplit
         rw [hsplit] at hrg
-        exact Range.fromSparse_last_wins l1 l2 c rg hrg (her' c hcne) (fun x hx => hu2 x hx)
+        exact Range.fromSparse_last_wins l1 l2 c rg hrg (fun x hx => hu2 x hx)
     · intro p q hfree
       apply Range.fromSparse_untouched ne rg hrg
       intro x hx
